@@ -25,7 +25,7 @@ TIERS = {
     "quick": {"runs": 3500, "max_wall": 240, "minimise_s": 25, "chunk": 100},
     "thorough": {"runs": 150000, "max_wall": 3000, "minimise_s": 60, "chunk": 500},
 }
-FAULT_KINDS = ["read error", "user disconnect", "stop", "read error + reconnect", "peer close (tcp)", "peer reset (tcp)", "slow sendall (send buffer nearly full, tcp)", "write that stalls while hundreds of commands pile up"]
+FAULT_KINDS = ["read error", "user disconnect", "stop", "read error + reconnect", "peer close (tcp)", "peer reset (tcp)", "slow sendall (send buffer nearly full, tcp)", "write that stalls while hundreds of commands pile up", "stalled pump thread (descheduled 0.15-0.6 s with a command in hand)"]
 REAL = ["mysensors.transport", "mysensors.task (SyncTasks._poll_queue)", "mysensors.gateway_serial.sync_connect", "mysensors.gateway_tcp (TCPTransport, sync_connect)",
         "serial.threaded.ReaderThread", "handlers for the commands"]
 STUBS = ["thread scheduling (baton + sys.settrace line pre-emption)", "threading.Lock/Event (SimLock/SimEvent)", "serial port / socket / select", "clock"]
@@ -78,6 +78,10 @@ def gen(rng, tier, index):
         sched["p"] = rng.choice([0.01, 0.03, 0.08, 0.2])
     if rng.random() < 0.5:
         sched["sleep_slack"] = 0.02  # sleeping threads may wake together with something else due within 20 ms
+    if scenario != "F" and rng.random() < 0.15:
+        # the pump may be descheduled for 0.15 / 0.6 s with a command in hand (before or after the write) while
+        # producers and the tearing-down thread go on
+        sched["stall"] = {"p": rng.choice([0.05, 0.15]), "durations": [0.15, 0.6]}
     events = EVENTS_TCP if flavour == "tcp" else EVENTS_SERIAL
     event = rng.choice(events) if scenario == "A" else "none"
     return {"cfg": {"flavour": flavour, "slow_lost_callback": rng.choice([2.5, "join", "join"]) if event in ("both_errors", "read_error_reconnect") and rng.random() < 0.6 else 0, "version": rng.choice(["1.4", "2.0", "2.2"]) if scenario != "S" else rng.choice(["2.0", "2.1", "2.2"]), "scenario": scenario,
@@ -274,6 +278,10 @@ def run(case):
                     break
                 sim.sleep(0.5)
             sim.sleep(0.3)  # the command the pump has just taken off the queue may still be inside a (slow) send
+            for _ in range(40):
+                if not sim.stalled() and not gateway.tasks.queue:
+                    break
+                sim.sleep(0.1)  # ... or its thread is sitting out an injected stall with the command in hand
             world.device.write_hook = None
             if cfg["event"] == "both_errors" and not probes.get("write_and_read_error_together"):
                 conn0.write_exc = None  # nothing was written after the event: the armed fault is withdrawn
@@ -396,9 +404,10 @@ def run(case):
         sched = sim.decisions()
         now = sim.now
         pre = sim.preemptions
+        stalls = sim.stats.get("fault_stall", 0)
         world.close()
     nontrivial = bool(pre and (probes.get("teardown_while_queued") or cfg["scenario"] in ("B", "S", "F")))
     return {"violations": violations, "digest": digest, "nontrivial": nontrivial, "key": inter or digest, "probes": probes,
-            "faults": {cfg["event"]: 1}, "steps": steps, "sim_seconds": now, "incomplete": incomplete, "interleaving": inter,
+            "faults": dict({cfg["event"]: 1}, **({"stalled_thread": stalls} if stalls else {})), "steps": steps, "sim_seconds": now, "incomplete": incomplete, "interleaving": inter,
             "sched": sched, "states": [],
             "sample": {"cfg": {k: v for k, v in cfg.items() if k != "gaps"}, "preemptions": pre, "schedule": sched if pre <= 6 else "..."}}
